@@ -21,7 +21,8 @@ From ML Require Import base.RustSem model.Fmt model.Mask model.Num model.Number 
   model.Vec model.Bigint model.Slow spec.Decimal spec.RneZ gen.Consts gen.Tables gen.PowDump.
 From ML Require Import proofs.TableFacts proofs.ParseFacts proofs.LimbVal proofs.BigintFacts1
   proofs.BigintFacts2 proofs.RoundingFactsZ proofs.RoundingFactsRne proofs.NumFacts
-  proofs.SlowFacts1 proofs.SlowFacts1b proofs.SlowFacts2 proofs.SlowFacts2b proofs.SlowFacts2c.
+  proofs.SlowFacts1 proofs.SlowFacts1b proofs.SlowFacts2 proofs.SlowFacts2b proofs.SlowFacts2c
+  proofs.SlowFacts2d.
 Import ListNotations.
 Open Scope Z_scope.
 
@@ -367,10 +368,25 @@ Proof. vm_compute. reflexivity. Qed.
 Lemma cap_ok_F32 : cap_ok F32 (slow_K F32) = true.
 Proof. vm_compute. reflexivity. Qed.
 
-(** *** [slow_capacity]: the size hypotheses of [negative_digit_comp_correct] *)
+(** the truncated estimate is a sign-clear pattern (for [exp fp <= -64] it is +0.0, SlowFacts2d) *)
+Lemma rd_bits_range f fp :
+  fmt_ok f = true -> rfmt_ok f = true ->
+  2 ^ 63 <= mant fp < 2 ^ 64 -> exp fp <= 2 ^ 30 ->
+  0 <= rd_bits f fp < 2 ^ (fbits f - 1).
+Proof.
+  intros OK Hf Hm He. destruct (Z_le_gt_dec (- 63) (exp fp)) as [Hhi|Hlo].
+  - destruct (rd_model f Hf checked_build fp Hm ltac:(lia)) as (_ & _ & Hrange). exact Hrange.
+  - destruct fp as [m e]. cbn [mant exp] in *.
+    assert (2 ^ 63 < 2 ^ 64) by (vm_compute; reflexivity).
+    rewrite (rd_bits_low f Hf m e ltac:(lia) ltac:(lia)).
+    destruct (fmt_ok_facts f OK). split; [lia|]. apply NumFacts.pow2_pos. lia.
+Qed.
+
+(** *** [slow_capacity]: the size hypotheses of [negative_digit_comp_correct] (and of
+    [negative_digit_comp_correct_64]); no lower bound on [exp fp] is needed here *)
 Theorem slow_capacity f fp exponent N w :
   fmt_ok f = true -> rfmt_ok f = true -> cap_ok f (slow_K f) = true ->
-  2 ^ 63 <= mant fp < 2 ^ 64 -> - 63 <= exp fp <= 2 ^ 30 ->
+  2 ^ 63 <= mant fp < 2 ^ 64 -> exp fp <= 2 ^ 30 ->
   0 < N < 10 ^ (MAX_DIGITS f + 1) ->
   - slow_K f <= exponent < 0 ->                      (* exponent_lo *)
   rne_bits f N (10 ^ (- exponent)) w ->
@@ -383,7 +399,7 @@ Theorem slow_capacity f fp exponent N w :
   (2 * Mb + 1) * 5 ^ (- exponent) * 2 ^ Z.max 0 beta < B64 ^ 62.
 Proof.
   intros OK Hf Hcap Hm He HN Hex Hr Hw bbits Mb Eb beta.
-  destruct (rd_model f Hf checked_build fp Hm He) as (_ & _ & Hrange).
+  pose proof (rd_bits_range f fp OK Hf Hm He) as Hrange.
   pose proof (slow_capacity_gen f OK (slow_K f) bbits N (- exponent) w Hcap Hrange HN ltac:(lia) Hr Hw)
     as H. cbv zeta in H. fold Mb Eb in H.
   replace (Eb - 1 + - exponent) with beta in H by (unfold beta; lia). exact H.
@@ -413,10 +429,7 @@ Proof.
   destruct negative_digit_comp_correct_hyps as
     (H1 & H2 & H3 & H4 & H5 & H6 & H7 & H8 & H9 & H10 & H11 & H12 & H13 & H14 & H15 & H16 & H17).
   apply (slow_capacity F64 ex_fp (-53) ex_N 0x3ff0000000000000 F64_ok rfmt_ok_F64 cap_ok_F64);
-    try assumption. Show.
-  - split; [exact H6|vm_compute; reflexivity].
-  - vm_compute. split; congruence.
-  - lia.
+    try assumption; try (vm_compute; split; congruence); try lia.
 Qed.
 
 Print Assumptions slow_branch.
